@@ -6,19 +6,22 @@
    Crash <exception type>), tied to the real `_normalize_props` + `_create_fts` of /repo by the
    correspondence run of harness/props/c10_model.py.
 
-   Proved: a field type tree that the regenerated final schema accepts AND that has the documented
-   shape is never a crash (the claim of the comment in `_Parser._parse`); for string field types
-   the schema alone suffices.  For every documented constraint that the unchanged schema does not
-   enforce and that `_create_fts` relies on, a schema-valid witness on which the skeleton crashes
-   (`_refuted`); the check replays each on the real front end. *)
+   Proved: a field type tree that the regenerated final schema accepts and that contains no float
+   and no null `mappings` property is never a crash (the claim of the comment in
+   `_Parser._parse`); for string field types the schema alone suffices.  The two excluded cases
+   are documented constraints that the schemas still do not enforce (Props/C09.v): for each a
+   schema-valid witness on which the skeleton crashes (`_refuted`), replayed on the real front end.
+   The former crash witnesses (static array without length, dynamic array without element,
+   member `a-b: 5`) are now rejected by the regenerated schema (Examples). *)
 From Coq Require Import List String ZArith Bool.
 Import ListNotations.
 From BT.Front Require Import Json JsonSchema JsonSchemaLemmas DocValid JsonSchemaDoc JsonWitness
      CreateConfig CreateConfigProofs.
+From BT.Gen Require Schemas3.
 Open Scope string_scope.
 
 Theorem C10_create_ft_total_partial :
-  forall j, accepts3 "config/3/field-type#/definitions/ft" j -> ft_doc true j ->
+  forall j, accepts3 "config/3/field-type#/definitions/ft" j -> clean j = true ->
   forall fuel e, create_ft fuel j <> Crash e.
 Proof. exact create_ft_total_accepted. Qed.
 Print Assumptions C10_create_ft_total_partial.
@@ -28,27 +31,15 @@ Theorem C10_create_ft_total_string :
 Proof. exact create_string_total. Qed.
 Print Assumptions C10_create_ft_total_string.
 
-(* full-strength statement "accepted by the final schema => no crash" is false: *)
-Theorem C10_create_ft_static_array_refuted :     (* S14: KeyError('length') *)
-  exists j, accepts3 "config/3/field-type#/definitions/ft" j /\ exists fuel e, create_ft fuel j = Crash e.
-Proof. exact (refuted_crash w_S14 _ w_S14_valid crash_S14). Qed.
-Theorem C10_create_ft_dynamic_array_refuted :    (* S4: KeyError('element-field-type') *)
-  exists j, accepts3 "config/3/field-type#/definitions/ft" j /\ exists fuel e, create_ft fuel j = Crash e.
-Proof. exact (refuted_crash w_S4 _ w_S4_valid crash_S4). Qed.
+(* full-strength statement "accepted by the final schema => no crash" is still false: *)
 Theorem C10_create_ft_enum_null_mappings_refuted :   (* KeyError('mappings') *)
   exists j, accepts3 "config/3/field-type#/definitions/ft" j /\ exists fuel e, create_ft fuel j = Crash e.
 Proof. exact (refuted_crash w_enum_null _ w_enum_null_valid crash_enum_null). Qed.
-Theorem C10_create_ft_float_alignment_refuted :      (* S18: TypeError in _validate_alignment *)
+Theorem C10_create_ft_float_alignment_refuted :      (* S19: TypeError in _validate_alignment *)
   exists j, accepts3 "config/3/field-type#/definitions/ft" j /\ exists fuel e, create_ft fuel j = Crash e.
 Proof. exact (refuted_crash w_align_float _ w_align_float_valid crash_align_float). Qed.
-Theorem C10_create_ft_member_value_refuted :         (* member `a-b: 5`: TypeError *)
-  exists j, accepts3 "config/3/field-type#/definitions/ft" j /\ exists fuel e, create_ft fuel j = Crash e.
-Proof. exact (refuted_crash w_member_val _ w_member_val_valid crash_member_val). Qed.
-Print Assumptions C10_create_ft_static_array_refuted.
-Print Assumptions C10_create_ft_dynamic_array_refuted.
 Print Assumptions C10_create_ft_enum_null_mappings_refuted.
 Print Assumptions C10_create_ft_float_alignment_refuted.
-Print Assumptions C10_create_ft_member_value_refuted.
 
 (* non-vacuity: a nested, documented field type tree is created; a non-power-of-two alignment
    is a configuration error, not a crash *)
@@ -63,3 +54,14 @@ Proof. vm_compute. reflexivity. Qed.
 Example C10_example_cfgerr :
   create_ft 50 (JObj [("class", JStr "uint"); ("size", JInt 8); ("alignment", JInt 3)]) = CfgErr.
 Proof. vm_compute. reflexivity. Qed.
+
+(* regression: former crash witnesses are rejected by the regenerated final schema *)
+Example C10_static_array_without_length_rejected :
+  validate Schemas3.store 200 (SRef K_ft) w_S14 = Invalid.
+Proof. exact w_S14_rejected. Qed.
+Example C10_dynamic_array_without_element_rejected :
+  validate Schemas3.store 200 (SRef K_ft) w_S4 = Invalid.
+Proof. exact w_S4_rejected. Qed.
+Example C10_member_value_rejected :
+  validate Schemas3.store 200 (SRef K_ft) w_member_val = Invalid.
+Proof. exact w_member_val_rejected. Qed.
